@@ -195,11 +195,11 @@ Definition cfg_lookup_inverse (e : string * (Z * aty)) : bool :=
 
 (* ---- nominal usability of a definition (C16): build with every attribute nominal, parse what was built ---- *)
 Definition nominal_ok (bf : bool) (ds : list adef) : bool :=
-  let init := {| w_off := O; w_pay := []; w_attrs := [] |} in
+  let init := {| w_off := O; w_pay := []; w_attrs := []; w_trace := [] |} in
   match walk_list atttype readonly_names cfgdb storsize scalround [] [] 0%N bf (Some []) budget ds [] init with
   | Ok s =>
       match walk_list atttype readonly_names cfgdb storsize scalround [] [] 0%N bf None budget ds []
-              {| w_off := O; w_pay := w_pay s; w_attrs := [] |} with
+              {| w_off := O; w_pay := w_pay s; w_attrs := []; w_trace := [] |} with
       | Ok s' =>
           nodup_s (map fst (w_attrs s')) &&
           forallb (fun ab => String.eqb (fst ab) (snd ab)) (combine (map fst (w_attrs s)) (map fst (w_attrs s'))) &&
